@@ -258,4 +258,28 @@ theorem logRegime_chart (g : Grp) (eps : ℝ) (Y : DVec ℝ) (hu : UnitQ g Y) (h
   · right; simp [identG, qt, Quat.vec]
   · exact ⟨by simp [identG, v3], by simp [identG, qt, Quat.vec], by simp [identG]⟩
 
+/-- **the reverse sweep is per leaf**: what `.grad` of leaf `i` receives does not depend on which other leaves are differentiated —
+discarding the contributions addressed to any set of other leaves (`requires_grad = False` on them) leaves `grad i` unchanged -/
+theorem grad_filter (n i : Nat) (S : Nat → Bool) (hS : S i = true) (cs : List (Nat × DVec ℝ)) :
+    grad n i (cs.filter (fun c => S c.1)) = grad n i cs := by
+  unfold grad
+  have key : ∀ (acc : DVec ℝ) (cs' : List (Nat × DVec ℝ)),
+      (cs'.filter (fun c => S c.1)).foldl (fun acc c => if c.1 == i then DVec.add acc c.2 else acc) acc
+        = cs'.foldl (fun acc c => if c.1 == i then DVec.add acc c.2 else acc) acc := by
+    intro acc cs'
+    induction cs' generalizing acc with
+    | nil => rfl
+    | cons c cs' ih =>
+      by_cases h : S c.1 = true
+      · simp only [List.filter_cons, h, if_true, List.foldl_cons]; exact ih _
+      · have hne : (c.1 == i) = false := by
+          cases hci : (c.1 == i) with
+          | false => rfl
+          | true =>
+            have : c.1 = i := by simpa using hci
+            rw [this] at h; exact absurd hS h
+        simp only [List.filter_cons, h, Bool.false_eq_true, if_false, List.foldl_cons, hne]
+        exact ih _
+  exact key _ cs
+
 end PP.AD
